@@ -318,6 +318,8 @@ class SimWorld(object):
                 context=self.context, loop=self.ioloop, **opts)
         self.ctrl = self.arbiter.ctrl
         self.start_future = None
+        k.excl_probe = lambda: getattr(world.arbiter,
+                                       '_exclusive_running_command', None)
 
     # -- plumbing ----------------------------------------------------------
     def _patch(self, obj, name, value):
